@@ -167,7 +167,11 @@ func init() {
 				id = strings.TrimSuffix(id, "+")
 				pa := partners[i%len(partners)]
 				pb := partners[(i/len(partners)+1)%len(partners)]
-				for _, text := range []string{id + " OR " + pa, pb + " AND (" + id + " OR " + pa + ")", id + "+ AND " + pb, id + " WITH " + tblExceptions[i%len(tblExceptions)] + " OR " + pa} {
+				texts := []string{pb + " AND (" + id + " OR " + pa + ")", id + "+ AND " + pb, id + " WITH " + tblExceptions[i%len(tblExceptions)] + " OR " + pa}
+				for _, p := range partners { // every id meets every kind of partner at least once
+					texts = append(texts, id+" OR "+p)
+				}
+				for _, text := range texts {
 					count("every_id_with_partner")
 					if f := c03Probe(text, true); f != nil {
 						fail(*f)
